@@ -85,3 +85,55 @@ func VerifC11_StreamFromEntry() {
 	}
 	verifObserve("nframes", len(frames))
 }
+
+// Long streams: total length beyond the 32-packet receive buffer, so that whatever buffer maintenance the
+// framer does (compaction, rewind) happens many times with a partially received block pending.  Block and
+// read sizes are concrete per path (chosen from lists); block contents are opaque symbolic bytes, so the
+// byte-for-byte comparison of every delivered frame is decided by the solver.
+var verifC11LongShapes = [][2]int{ // {payload length, read size}
+	{996, 1499},   // small blocks, unaligned reads: ~1.5 blocks per read
+	{8796, 8800},  // maximal blocks, reads aligned with blocks
+	{8796, 13001}, // maximal blocks, reads straddle blocks
+	{2500, 65536}, // many blocks per read
+	{5000, 3001},  // several reads per block
+}
+
+func VerifC11_LongStream() {
+	shape := verifC11LongShapes[verifChoice("shape", len(verifC11LongShapes))]
+	plen, chunk := shape[0], shape[1]
+	total := verifParam("longbytes", 300000)
+	var stream []byte
+	var sizes []int
+	for len(stream) < total {
+		start := len(stream)
+		stream = append(stream, byte(verifRange("typ", 1, 0xfc)))
+		if plen <= 0xfc {
+			stream = append(stream, byte(plen))
+		} else {
+			stream = append(stream, 0xfd, byte(plen>>8), byte(plen))
+		}
+		stream = append(stream, verifBytesUF("payload", plen)...)
+		sizes = append(sizes, len(stream)-start)
+	}
+	rd := &verifScriptReader{data: stream}
+	for n := 0; n*chunk < len(stream); n++ {
+		rd.sizes = append(rd.sizes, chunk)
+	}
+	var frames [][]byte
+	var err error
+	verifNoPanic("C11/long/no-panic", func() {
+		err = readTlvStream(rd, func(f []byte) {
+			c := make([]byte, len(f))
+			copy(c, f)
+			frames = append(frames, c)
+		}, nil)
+	})
+	verifAssert(err == nil, "C11/long/no-error")
+	verifAssert(len(frames) == len(sizes), "C11/long/frame-count")
+	off := 0
+	for i := 0; i < len(sizes) && i < len(frames); i++ {
+		verifAssertBytesEq(frames[i], stream[off:off+sizes[i]], "C11/long/frame-bytes")
+		off += sizes[i]
+	}
+	verifObserve("nframes", len(frames))
+}
